@@ -22,6 +22,7 @@ type c08Case struct {
 	Hist []PktSpec `json:"history"`
 	Mode string    `json:"mode"`
 	Cuts []int     `json:"cuts"`     // byte offsets into the concatenated packet stream (sorted, distinct)
+	Empty []int    `json:"empty_units_before"` // websocket: an empty binary message is sent before unit #i (a read that carries no bytes)
 	Bad  int       `json:"bad_at"`   // >=0: replace the length field of packet #Bad by BadLen (unframeable stream)
 	BadLen uint32  `json:"bad_len"`
 }
@@ -139,6 +140,9 @@ func genC08(t *rapid.T) c08Case {
 		c.Bad = pk
 		c.BadLen = uint32(rapid.IntRange(0, 7).Draw(t, "badlen"))
 	}
+	if c.Kind == "ws" && c.Mode != "unframeable" && rapid.IntRange(0, 3).Draw(t, "emptyUnits") == 0 {
+		c.Empty = rapid.SliceOfN(rapid.IntRange(0, 12), 1, 3).Draw(t, "emptyAt")
+	}
 	delete(cutset, total)
 	delete(cutset, 0)
 	for k := range cutset {
@@ -203,8 +207,8 @@ func sendSegmented(kind string, tgt gwc.Target, units [][]byte) sess.Result {
 	}
 	defer c.Close()
 	for _, u := range units {
-		if len(u) == 0 {
-			continue
+		if len(u) == 0 && kind != "ws" {
+			continue // a zero-length HTTP chunk would end the request body
 		}
 		if err := c.Send(u); err != nil {
 			break
@@ -244,7 +248,10 @@ func segClass(c c08Case, bounds []int) (nt bool, cl []string) {
 	if missing > 0 {
 		cl = append(cl, "coalesces-packets")
 	}
-	return inner > 0 || missing > 0 || c.Bad >= 0, cl
+	if len(c.Empty) > 0 {
+		cl = append(cl, "empty-units")
+	}
+	return inner > 0 || missing > 0 || c.Bad >= 0 || len(c.Empty) > 0, cl
 }
 
 func runC08(c c08Case) *Violation {
@@ -291,6 +298,18 @@ func runC08(c c08Case) *Violation {
 			}
 		}
 		units = append(units, stream[prev:])
+		if len(c.Empty) > 0 {
+			var withEmpty [][]byte
+			for i, u := range units {
+				for _, e := range c.Empty {
+					if e == i {
+						withEmpty = append(withEmpty, []byte{})
+					}
+				}
+				withEmpty = append(withEmpty, u)
+			}
+			units = withEmpty
+		}
 		w := W()
 		s := w.snap()
 		r := sendSegmented(c.Kind, tgt, units)
